@@ -32,4 +32,5 @@ def run(ctx):
                        nontrivial=lambda c, i: i not in ('', 'PANIC'), concrete=False)
     ctx.oracle_stream('token-offsets', d + '/tok1.verdicts', d + '/tok1.cases')
     ctx.oracle_stream('candidate-ranges', d + '/ranges.verdicts', d + '/ranges.cases')
+    ctx.oracle_stream('candidate-ranges-storm', d + '/storm.verdicts', d + '/storm.cases')
     ctx.cov['distinct_nontrivial'] = sum(v['nontrivial'] for v in ctx.cov['streams'].values())
